@@ -9,24 +9,24 @@ def PC.holdsLock : PC → Bool
   | _ => false
 /-- the caller's wait group is registered in `lg.m` -/
 def PC.inFlight : PC → Bool
-  | .c3 | .f0 | .f1 | .e0 | .e1 => true
+  | .c3 | .f0 | .f1 | .fp | .e0 | .e1 => true
   | _ => false
 def PC.preReg : PC → Bool
   | .c0 | .c1 | .c2 => true
   | _ => false
 /-- the goroutine owns a wait group it allocated and has not released yet -/
 def PC.owns : PC → Bool
-  | .c1 | .c2 | .c3 | .f0 | .f1 | .e0 | .e1 | .e2 | .e3 => true
+  | .c1 | .c2 | .c3 | .f0 | .f1 | .fp | .e0 | .e1 | .e2 | .e3 => true
   | _ => false
 def PC.wgOne : PC → Bool
-  | .c2 | .c3 | .f0 | .f1 | .e0 | .e1 | .e2 | .e3 => true
+  | .c2 | .c3 | .f0 | .f1 | .fp | .e0 | .e1 | .e2 | .e3 => true
   | _ => false
 /-- before the own function has started -/
 def PC.notRun : PC → Bool
   | .b0 | .b1 | .b2 | .b3 | .c0 | .c1 | .c2 | .c3 | .f0 => true
   | _ => false
 def PC.ranOnce : PC → Bool
-  | .f1 | .e0 | .e1 | .e2 | .e3 | .e4 => true
+  | .f1 | .fp | .e0 | .e1 | .e2 | .e3 | .e4 | .px => true
   | _ => false
 
 structure Inv (s : St) : Prop where
